@@ -37,6 +37,11 @@ cls(
     },
 )
 
+# h2's close_connection() sends GOAWAY *and* closes h2's connection state machine: every later
+# send_headers / send_data / end_stream raises ProtocolError (which the callers swallow as "stream
+# gone").  So "a request that completes within the grace period is delivered in full" (C15) and "one
+# more on HTTP/2 [is] served" (C18) need: GOAWAY only when nothing is left to send.
+GOAWAY_LAST = {"H2Connection.close_connection": [("C15.h2.goaway-after-last", "forall_int('k', not in_map(self.stream_buffers, k))", "C15,C18,C09")]}
 fn(H2 + "._flush", params={}, modifies=[], effect="yields",
    ensures=[("flush.forwards", "trace_all('sent', 'x', isinstance(x, RawData))", "C02")], props=("C04",))
 
@@ -103,7 +108,7 @@ fn(H2 + ".handle", params={"event": _ev.IO_EVENTS}, task="reader",
    ],
    props=("C04",))
 
-fn(H2 + ".stream_send", params={"event": _ev.STREAM_EVENTS}, task="app",
+fn(H2 + ".stream_send", params={"event": _ev.STREAM_EVENTS}, task="app", model_opts={"call_requires": GOAWAY_LAST},
    requires=[("stream_send.pre.sid", "event.stream_id > 0")],
    ensures=[
        # C05 ("HTTP/2: the stream is reset"): when a stream layer reports that it is finished the
@@ -129,7 +134,7 @@ fn(H2 + ".stream_send", params={"event": _ev.STREAM_EVENTS}, task="app",
    ],
    props=("C04", "C05"))
 
-fn(H2 + "._handle_events", params={"events": "obj pyvc:H2Events"}, task="reader",
+fn(H2 + "._handle_events", params={"events": "obj pyvc:H2Events"}, task="reader", model_opts={"call_requires": GOAWAY_LAST},
    loops={0: {"body_ensures": [
        # C01/C09: every DATA frame is acknowledged for flow control with its flow-controlled
        # length, whether or not its stream still exists (otherwise the connection window drains)
